@@ -1,12 +1,15 @@
 package main
 
 import (
-	"os"
 	"fmt"
 	"go/token"
 	"go/types"
+	"math"
+	"math/big"
+	"os"
 	"regexp"
 	"sort"
+	"strconv"
 	"strings"
 	"unicode"
 
@@ -697,69 +700,80 @@ func rulePrinters(p *Prog, r *Report) {
 		seen[f.Node] = true
 		// number notation
 		nk := rule + ":ast.(*" + f.Node + ").String:notation"
-		in := NewInterp(p)
-		if f.ByteSz != 0 {
-			in.PathBind["p0.byteSize"] = int64Val(int64(f.ByteSz))
-		}
-		var probs []string
-		nfmt := 0
-		in.OnCall = func(call *ssa.Call, callee *ssa.Function, a []Val, fr *frame) {
-			if fr.fn != fn || callee.Pkg == nil || callee.Pkg.Pkg.Path() != "strconv" {
-				return
-			}
-			switch callee.Name() {
-			case "FormatInt", "FormatUint":
-				nfmt++
-				wantBase := int64(10)
-				if f.Node == "BinaryNode" {
-					wantBase = 2
-				}
-				if !(a[1].K == KInt && a[1].I.Int64() == wantBase) {
-					probs = append(probs, fmt.Sprintf("numbers are printed in base %s, expected base %d", a[1], wantBase))
-				}
-			case "FormatFloat":
-				nfmt++
-				if !(a[1].K == KInt && a[1].I.Int64() == 'g' && a[2].K == KInt && a[2].I.Int64() == -1 && a[3].K == KInt && a[3].I.Int64() == int64(8*f.ByteSz)) {
-					probs = append(probs, fmt.Sprintf("floats are printed with FormatFloat(v, %s, %s, %s); the shortest representation that reads back is ('g', -1, %d)", a[1], a[2], a[3], 8*f.ByteSz))
-				}
-			}
-		}
-		in.Run(fn, defaultArgs(fn), nil)
-		if f.Node == "BooleanNode" {
-			// T / F
-			_, strs := moduleConsts(fn)
-			hasT, hasF := false, false
-			for _, s := range strs {
-				if s == "T" {
-					hasT = true
-				}
-				if s == "F" {
-					hasF = true
-				}
-			}
-			if hasT && hasF {
-				r.ok(rule, nk, p.Pos(fn.Pos()), "booleans are printed as T and F")
+		if d, decided, good := notationOfNode(p, fn, f.Node); decided {
+			if good {
+				r.ok(rule, nk, p.Pos(fn.Pos()), d)
 			} else {
-				r.bad(rule, nk, p.Pos(fn.Pos()), "booleans are not printed as the SML literals T and F")
+				r.bad(rule, nk, p.Pos(fn.Pos()), d)
 			}
-		} else if f.Node == "BinaryNode" {
-			_, strs := moduleConsts(fn)
-			has0b := false
-			for _, s := range strs {
-				if s == "0b" {
-					has0b = true
+			goto variables
+		}
+		{
+			in := NewInterp(p)
+			if f.ByteSz != 0 {
+				in.PathBind["p0.byteSize"] = int64Val(int64(f.ByteSz))
+			}
+			var probs []string
+			nfmt := 0
+			in.OnCall = func(call *ssa.Call, callee *ssa.Function, a []Val, fr *frame) {
+				if !withinFn(fr.fn, fn) || callee.Pkg == nil || callee.Pkg.Pkg.Path() != "strconv" {
+					return
+				}
+				switch callee.Name() {
+				case "FormatInt", "FormatUint":
+					nfmt++
+					wantBase := int64(10)
+					if f.Node == "BinaryNode" {
+						wantBase = 2
+					}
+					if !(a[1].K == KInt && a[1].I.Int64() == wantBase) {
+						probs = append(probs, fmt.Sprintf("numbers are printed in base %s, expected base %d", a[1], wantBase))
+					}
+				case "FormatFloat":
+					nfmt++
+					if !(a[1].K == KInt && a[1].I.Int64() == 'g' && a[2].K == KInt && a[2].I.Int64() == -1 && a[3].K == KInt && a[3].I.Int64() == int64(8*f.ByteSz)) {
+						probs = append(probs, fmt.Sprintf("floats are printed with FormatFloat(v, %s, %s, %s); the shortest representation that reads back is ('g', -1, %d)", a[1], a[2], a[3], 8*f.ByteSz))
+					}
 				}
 			}
-			if len(probs) == 0 && nfmt > 0 && has0b {
-				r.ok(rule, nk, p.Pos(fn.Pos()), "bytes are printed as 0b + base-2 digits, which the reader takes with base 0")
+			in.Run(fn, defaultArgs(fn), nil)
+			if f.Node == "BooleanNode" {
+				// T / F
+				_, strs := moduleConsts(fn)
+				hasT, hasF := false, false
+				for _, s := range strs {
+					if s == "T" {
+						hasT = true
+					}
+					if s == "F" {
+						hasF = true
+					}
+				}
+				if hasT && hasF {
+					r.ok(rule, nk, p.Pos(fn.Pos()), "booleans are printed as T and F")
+				} else {
+					r.bad(rule, nk, p.Pos(fn.Pos()), "booleans are not printed as the SML literals T and F")
+				}
+			} else if f.Node == "BinaryNode" {
+				_, strs := moduleConsts(fn)
+				has0b := false
+				for _, s := range strs {
+					if s == "0b" {
+						has0b = true
+					}
+				}
+				if len(probs) == 0 && nfmt > 0 && has0b {
+					r.ok(rule, nk, p.Pos(fn.Pos()), "bytes are printed as 0b + base-2 digits, which the reader takes with base 0")
+				} else {
+					r.bad(rule, nk, p.Pos(fn.Pos()), "bytes are not printed as \"0b\" followed by base-2 digits: "+strings.Join(uniq(probs), "; "))
+				}
+			} else if len(probs) > 0 || nfmt == 0 {
+				r.bad(rule, nk, p.Pos(fn.Pos()), "number notation: "+strings.Join(uniq(probs), "; ")+fmt.Sprintf(" (%d formatting calls found)", nfmt))
 			} else {
-				r.bad(rule, nk, p.Pos(fn.Pos()), "bytes are not printed as \"0b\" followed by base-2 digits: "+strings.Join(uniq(probs), "; "))
+				r.ok(rule, nk, p.Pos(fn.Pos()), "numbers are printed in a notation the reader accepts and that denotes the same value")
 			}
-		} else if len(probs) > 0 || nfmt == 0 {
-			r.bad(rule, nk, p.Pos(fn.Pos()), "number notation: "+strings.Join(uniq(probs), "; ")+fmt.Sprintf(" (%d formatting calls found)", nfmt))
-		} else {
-			r.ok(rule, nk, p.Pos(fn.Pos()), "numbers are printed in a notation the reader accepts and that denotes the same value")
 		}
+	variables:
 		// variable names are written at their positions
 		vk := rule + ":ast.(*" + f.Node + ").String:variables-at-positions"
 		okPos := false
@@ -856,12 +870,13 @@ func printsSML(p *Prog, fn *ssa.Function, f itemFormat) (detail string, decided,
 		}
 		in.PathBind["p0.values"] = Val{K: KSlice, S: "p0.values", Len: n}
 		in.PathBind["len(p0.variables)"] = int64Val(0)
+		in.MapKeys["p0.variables"] = nil
 		for i := 0; i < n && !opaque; i++ {
 			in.PathBind[fmt.Sprintf("p0.values[%d]", i)] = vals[i]
 		}
 		if opaque {
 			in.Bind = func(v ssa.Value, fr *frame) (Val, bool) {
-				if c, ok := v.(*ssa.Call); ok && fr.fn == fn {
+				if c, ok := v.(*ssa.Call); ok && withinFn(fr.fn, fn) {
 					if sc := c.Common().StaticCallee(); sc != nil && sc.Pkg != nil && sc.Pkg.Pkg.Path() == "strconv" && strings.HasPrefix(sc.Name(), "Format") {
 						return strVal("§"), true
 					}
@@ -1165,7 +1180,7 @@ func printsVariables(p *Prog, fn *ssa.Function, f itemFormat) (detail string, de
 			}
 		} else {
 			in.Bind = func(v ssa.Value, fr *frame) (Val, bool) {
-				if c, ok := v.(*ssa.Call); ok && fr.fn == fn {
+				if c, ok := v.(*ssa.Call); ok && withinFn(fr.fn, fn) {
 					if sc := c.Common().StaticCallee(); sc != nil && sc.Pkg != nil && sc.Pkg.Pkg.Path() == "strconv" && strings.HasPrefix(sc.Name(), "Format") {
 						return strVal("§"), true
 					}
@@ -1527,4 +1542,123 @@ func hexOf(bs []int64) string {
 		parts = append(parts, fmt.Sprintf("%02x", b))
 	}
 	return strings.Join(parts, " ")
+}
+
+// withinFn: f is fn or a function literal nested in it.
+func withinFn(f, fn *ssa.Function) bool {
+	for ; f != nil; f = f.Parent() {
+		if f == fn {
+			return true
+		}
+	}
+	return false
+}
+
+// notationByEvaluation: the printer of a numeric, binary or boolean node
+// evaluated on concrete element values chosen so that every other base,
+// float format, precision or width gives a different text (extremes of the
+// width, values of 2 and more digits, floats whose shortest form differs from
+// fixed-precision forms). The expected texts are the SML literals the reader
+// takes back to the same value.
+func notationByEvaluation(p *Prog, fn *ssa.Function, f itemFormat) (string, bool, bool) {
+	var vals []Val
+	var texts []string
+	bits := uint(8 * f.ByteSz)
+	switch f.Node {
+	case "BinaryNode":
+		for _, v := range []int64{0, 1, 2, 10, 127, 128, 255} {
+			vals = append(vals, int64Val(v))
+			texts = append(texts, "0b"+strconv.FormatInt(v, 2))
+		}
+	case "BooleanNode":
+		vals, texts = []Val{boolVal(true), boolVal(false)}, []string{"T", "F"}
+	case "IntNode":
+		for _, v := range []int64{0, 9, 10, -10, 100, -1, 1<<(bits-1) - 1, -1 << (bits - 1)} {
+			vals = append(vals, int64Val(v))
+			texts = append(texts, strconv.FormatInt(v, 10))
+		}
+	case "UintNode":
+		us := []uint64{0, 9, 10, 100, 255, 1<<(bits-1) + 1, 1<<bits - 1}
+		if bits == 64 {
+			us[len(us)-1] = math.MaxUint64
+		}
+		for _, v := range us {
+			vals = append(vals, Val{K: KInt, I: new(big.Int).SetUint64(v)})
+			texts = append(texts, strconv.FormatUint(v, 10))
+		}
+	case "FloatNode":
+		fs := []float64{0, 1, -1.5, 0.1, 100000, 1e21, 1e-7, 123456789, 0.30000000000000004, 3.4028234663852886e38, 1.401298464324817e-45}
+		if f.ByteSz == 8 {
+			fs = append(fs, math.MaxFloat64, 5e-324, 1.0000000000000002)
+		}
+		for _, v := range fs {
+			vals = append(vals, floatVal(v))
+			texts = append(texts, strconv.FormatFloat(v, 'g', -1, int(bits)))
+		}
+	default:
+		return "", false, false
+	}
+	in := NewInterp(p)
+	if f.ByteSz != 0 {
+		in.PathBind["p0.byteSize"] = int64Val(int64(f.ByteSz))
+	}
+	in.PathBind["p0.values"] = Val{K: KSlice, S: "p0.values", Len: len(vals)}
+	in.PathBind["len(p0.variables)"] = int64Val(0)
+	in.MapKeys["p0.variables"] = nil
+	for i, v := range vals {
+		in.PathBind[fmt.Sprintf("p0.values[%d]", i)] = v
+	}
+	out := in.Run(fn, defaultArgs(fn), nil)
+	if out.Frame == nil {
+		return "", false, false
+	}
+	rets := out.Frame.ReturnVals()
+	if len(in.Stuck) > 0 || len(rets) != 1 || len(rets[0]) != 1 || rets[0][0].K != KStr {
+		return "", false, false
+	}
+	got := rets[0][0].S
+	i := strings.Index(got, "] ")
+	if i < 0 || !strings.HasSuffix(got, ">") {
+		return "", false, false
+	}
+	parts := strings.Split(got[i+2:len(got)-1], " ")
+	if len(parts) != len(texts) {
+		return fmt.Sprintf("a node of %d elements prints %d element texts: %q", len(texts), len(parts), got), true, false
+	}
+	var bad []string
+	for k := range texts {
+		if parts[k] != texts[k] {
+			bad = append(bad, fmt.Sprintf("the element %s is printed as %q, the literal that reads back to it is %q", vals[k], parts[k], texts[k]))
+		}
+	}
+	if len(bad) > 0 {
+		return strings.Join(firstN(bad, 3), "; "), true, false
+	}
+	return fmt.Sprintf("evaluated on %d element values (extremes of the width, several digits, floats whose shortest form differs from fixed forms): each is printed as the literal the reader takes back to the same value", len(vals)), true, true
+}
+
+// notationOfNode evaluates the printer for every width of the node type.
+func notationOfNode(p *Prog, fn *ssa.Function, node string) (string, bool, bool) {
+	detail, n := "", 0
+	for _, f := range e5Formats {
+		if f.Node != node {
+			continue
+		}
+		d, decided, good := notationByEvaluation(p, fn, f)
+		if !decided {
+			return "", false, false
+		}
+		if !good {
+			return f.SML + ": " + d, true, false
+		}
+		detail = d
+		n++
+	}
+	if n == 0 {
+		return "", false, false
+	}
+	if n > 1 {
+		detail = fmt.Sprintf("for each of the %d widths: ", n) + detail
+	}
+	return detail, true, true
 }
